@@ -409,20 +409,20 @@ pub fn replay(args: &[String]) -> anyhow::Result<()> {
 }
 
 
-/// `record registry-many --per N`: "many instances per service" on the real NamingActor in real time (C13).  Three services
-/// with N silent ephemeral HTTP instances each (3 N is more than the actor expires in one sweep), five instances per service
+/// `record registry-many --per N`: "many instances per service" on the real NamingActor in real time (C13).  Four services
+/// with N silent ephemeral HTTP instances each (already three of them hold more than the actor expires in one sweep), five instances per service
 /// that keep heart-beating, one connection-owned and one persistent instance per service.  After the health time-out and a few
 /// sweeps, and again after the instance time-out and a few sweeps, the registry is counted; one observation per service and
 /// phase is printed - the requirements are ExpiryMany.tla's.
 pub fn many_instances(args: &[String]) -> anyhow::Result<()> {
-    let per = opt_u64(args, "--per", 4000) as usize;
+    let per = opt_u64(args, "--per", 3500) as usize;
     const H_MS: i64 = 1500;
     const T_MS: i64 = 4000;
     let sys = actix_rt::System::new();
     let r: anyhow::Result<()> = sys.block_on(async move {
         let addr = NamingActor::new().start();
         addr.send(hooks::NamingControl { health_timeout_ms: Some(H_MS), instance_timeout_ms: Some(T_MS), service_timeout_ms: Some(3_600_000), clear_empty_service: false }).await?;
-        let svcs = ["many-a", "many-b", "many-c"];
+        let svcs = ["many-a", "many-b", "many-c", "many-d"];
         let mk = |s: &str, j: usize, kind: &str| -> Instance {
             let new = match kind {
                 "grpc" => json!({"grpc": true, "cl": "conn-many", "eph": true}),
